@@ -11,6 +11,18 @@ XSMatch(obs, x) == obs.ok /\ obs.m = x.m /\ obs.e = x.e
 XSGt(x, thr, observed) == DSign(DAdd(x, DNeg(thr))) > 0
 XPIn(j) == [n |-> j.n]
 XCanon(n, t) == t
+\* approx::AbsDiffEq / RelativeEq lifted to arrays: equal dims and every pair of elements close
+DAbs(a) == IF a.m < 0 THEN DNeg(a) ELSE a
+DLe(a, b) == DSign(DAdd(b, DNeg(a))) >= 0
+DMax(a, b) == IF DLe(a, b) THEN b ELSE a
+ScalarClose(kind, x, y, eps, rel) ==
+  LET diff == DAbs(DAdd(x, DNeg(y))) IN
+  IF kind = "abs_diff_eq" THEN DLe(diff, eps)
+  ELSE x = y \/ DLe(diff, eps) \/ DLe(diff, DMul(DMax(DAbs(x), DAbs(y)), rel))
+XApproxEq(kind, a, b, eps, rel) ==
+  IF a.d # b.d THEN "F"
+  ELSE IF \E k \in 1..Len(a.v) : IsHuge(DAdd(a.v[k], DNeg(b.v[k]))) \/ IsHuge(DMul(DMax(DAbs(a.v[k]), DAbs(b.v[k])), rel)) THEN "unspec"
+  ELSE IF \A k \in 1..Len(a.v) : ScalarClose(kind, a.v[k], b.v[k], eps, rel) THEN "T" ELSE "F"
 XTainted(t) == \E k \in 1..Len(t.v) : IsHuge(t.v[k])
 XRec == ndJsonDeserialize(IOEnv.TRACE)
 
@@ -20,5 +32,5 @@ IdAdj(n, t) == t
 INSTANCE TraceSpec WITH SAdd <- DAdd, SMul <- DMul, SNeg <- DNeg, SDiv <- DDiv, SFn <- DFn,
                         SPow <- DPow, SDPow <- DDPow, SZero <- DZero, SOne <- DOne, AdjCanon <- IdAdj,
                         TIn <- XTIn, TMatch <- XTMatch, SIn <- XSIn, SMatch <- XSMatch, SGt <- XSGt,
-                        PIn <- XPIn, Canon <- XCanon, Tainted <- XTainted, Exact <- TRUE, Rec <- XRec
+                        PIn <- XPIn, Canon <- XCanon, ApproxEq <- XApproxEq, Tainted <- XTainted, Exact <- TRUE, Rec <- XRec
 =============================================================================
